@@ -136,7 +136,8 @@ class OnDiskBlock:
 
             if count:
                 offsets.append(base_offset + cursor)
-                base_offset += cursor
+            # The buffer is refilled from cursor even if no tx fitted in this chunk
+            base_offset += cursor
             tx_count -= count
             if tx_count == 0:
                 return offsets
